@@ -1,5 +1,5 @@
 From Coq Require Import Extraction ExtrOcamlBasic.
-From Cicada Require Import Base.Chars Base.Peg Gen.LocustGrammar Model.Script Model.ScriptAst.
+From Cicada Require Import Base.Chars Base.Peg Gen.LocustGrammar Model.Script Model.ScriptAst Model.Cmds Model.ListExec Model.CondLine.
 Extraction Language OCaml.
-Extraction "c14_model.ml" parse_from annotate l_grammar L_EXP l_names run_lines
+Extraction "c14_model.ml" run_line_of parse_from annotate l_grammar L_EXP l_names run_lines
   render_block tree_of_script sem_block wf_block wfp_block depth_block strip_eoi L_EOI.
